@@ -24,13 +24,15 @@ from vf import common, fsrec, tlc, tracecheck
 OLD = b'OLD COMPLETE CONTENT\n'
 
 
-def make_record():
+def make_record(attach=False):
   import openhtf as htf
   from openhtf.util import console_output
   console_output.CLI_QUIET = True
 
   def p(test):
     test.logger.info('hello')
+    if attach:
+      test.attach('calibration.bin', b'\x00\x01\x02payload' * 16)
   t = htf.Test(htf.PhaseOptions(name='p')(p))
   out = []
   t.add_output_callbacks(out.append)
@@ -97,6 +99,14 @@ def targets():
               ('{head}{small}' + big + '{tail}').encode(), False))
   out.append(('OutputToFile/default pickle serializer', run_cb(callbacks.OutputToFile), 'pickle', False))
   out.append(('OutputToJSON', run_cb(json_factory.OutputToJSON), 'json', False))
+  # the record's attachment files are gone when the JSON callback runs (CloseAttachments registered before it):
+  # reading the attachment fails in the middle of the stream, after chunks were handed to the staging file
+  closed = make_record(attach=True)
+  callbacks.CloseAttachments()(closed)
+
+  def run_closed(rec, pattern, dest):
+    json_factory.OutputToJSON(pattern)(closed)
+  out.append(('OutputToJSON/attachments closed before the callback', run_closed, 'json', True))
   for fa in (None, 0, 2):
     for fs in (False, True):
       out.append(('atomic_write%s%s' % ('' if fa is None else ' body raising after %d writes' % fa,
@@ -320,7 +330,10 @@ def main(chk):
           pos = max([i for i, e in enumerate(ev) if e['e'] in ('create', 'write')], default=-1) + 1
           ev.insert(pos, dict(e='fault'))
         tid = len(traces) + 1
-        traces.append(dict(id=tid, n=max(nwrites, 1) if not sfails else 3, old=old, ev=ev))
+        # n: chunks of the complete serialization (unknown for the record whose serialization cannot complete:
+        # whatever gets published there is not it)
+        traces.append(dict(id=tid, n=max(nwrites, 1) if not sfails else (1000000 if 'attachments closed' in name else 3),
+                           old=old, ev=ev))
         meta.append(dict(id=tid, target=name, old=old, fault=[fk, fn], error=err,
                          ops=[o[0] for o in ops], final=classify(content, expect, rec), leftover=left))
         final = classify(content, expect, rec)
